@@ -27,10 +27,11 @@ func c15DeadlockWitness() (reloadStack, lockStack string) {
 		if !strings.Contains(g.text, c15Pkg) {
 			continue
 		}
+		waiting := strings.Contains(g.text, "sync.(*WaitGroup).Wait")
 		switch {
-		case strings.Contains(g.text, "(*cluster).reload") && strings.Contains(g.text, "sync.(*WaitGroup).Wait"):
+		case waiting && strings.Contains(g.text, "(*cluster).reload("):
 			reloadStack = g.text
-		case !strings.Contains(g.text, "(*cluster).reload") && (strings.Contains(g.text, "sync.(*Mutex).Lock") || strings.Contains(g.text, "sync.(*RWMutex).")):
+		case !waiting && (strings.Contains(g.text, "sync.(*Mutex).") || strings.Contains(g.text, "sync.(*RWMutex).")):
 			lockStack = g.text
 		}
 	}
@@ -56,7 +57,13 @@ func (w *c15World) reloadBlocked(what string) {
 		return
 	}
 	w.wedged = true
-	w.inconclusive("%s: reload did not return within %v and no lock cycle was recognised in the goroutine dump", what, c15Watchdog)
+	var dump []string
+	for _, g := range c15Goroutines() {
+		if strings.Contains(g.text, c15Pkg) {
+			dump = append(dump, c15Trim(g.text, 1200))
+		}
+	}
+	w.inconclusive("%s: reload did not return within %v and no lock cycle was recognised in the goroutine dump:\n%s", what, c15Watchdog, strings.Join(dump, "\n\n"))
 }
 
 // inflightReload: ne pending events are handed to the only live watcher in one
